@@ -18,6 +18,7 @@ import (
 	"encoding/json"
 	"errors"
 	"fmt"
+	"os"
 	"sort"
 	"strings"
 	"testing"
@@ -178,15 +179,63 @@ type c03Probe struct {
 }
 
 type c03Input struct {
-	Cfg    string     `json:"cfg"` // "full" | "srh" | "latest" | "gc"
-	Ops    []c03Block `json:"ops"`
-	Probes []c03Probe `json:"probes"`
-	Absent []string   `json:"absent"` // extra storage keys (contract-relative, per slot 0..) probed for absence
+	// NoKnown: do not report the classes of violation that known_findings.json lists as OPEN for C03 (they are
+	// reported by the corpus cases on every run; repeating them on every generated chain would let the shrinker of
+	// ./check drift from a new failure to a listed one).  Set by the generator, never in corpus cases.
+	NoKnown bool       `json:"no_known,omitempty"`
+	Cfg     string     `json:"cfg"` // "full" | "srh" | "latest" | "gc"
+	Ops     []c03Block `json:"ops"`
+	Probes  []c03Probe `json:"probes"`
+	Absent  []string   `json:"absent"` // extra storage keys (contract-relative, per slot 0..) probed for absence
 }
 
 // batch cases are re-runnable on their own: the change set of one block
 type c03BatchInput struct {
 	Changes [][2]string `json:"changes"` // [storage key hex (with the 0x70 prefix), value hex | "-"]
+}
+
+// ---- classes of violation that belong to listed findings ----
+
+var c03KnownClasses = []string{
+	"TrieStore-backed Seek backwards with a start point",
+	"TrieStore-backed Seek forwards with a start point",
+	"historic getDesignatedByRole",
+	"GetTestHistoricVM fails for a retained height",
+}
+
+// c03OpenKnown: which of the classes above are listed as open findings of C03 right now.
+func c03OpenKnown() map[string]bool {
+	res := map[string]bool{}
+	path := os.Getenv("VERIF_KNOWN")
+	if path == "" {
+		path = "/verif/known_findings.json"
+	}
+	b, err := os.ReadFile(path)
+	if err != nil {
+		return res
+	}
+	var k struct {
+		Findings []struct {
+			Property string `json:"property"`
+			Match    struct {
+				Regex string `json:"regex"`
+			} `json:"match"`
+		} `json:"findings"`
+	}
+	if json.Unmarshal(b, &k) != nil {
+		return res
+	}
+	for _, f := range k.Findings {
+		if f.Property != "C03" {
+			continue
+		}
+		for _, c := range c03KnownClasses {
+			if strings.Contains(f.Match.Regex, c) {
+				res[c] = true
+			}
+		}
+	}
+	return res
 }
 
 // ---- helpers ----
@@ -591,12 +640,23 @@ func (c *c03Chain) runProbe(script []byte, historicNext uint32) (res c03Res) {
 func c03RunChain(co *caseOut, in c03Input, r *rng) {
 	kind := "chain"
 	seenNote := map[string]bool{}
+	openKnown := map[string]bool{}
+	if in.NoKnown {
+		openKnown = c03OpenKnown()
+	}
 	viol := func(note string, impl any) {
 		// one report per class and chain (the same defect shows at every height)
 		if seenNote[note] {
 			return
 		}
 		seenNote[note] = true
+		for c := range openKnown {
+			if strings.HasPrefix(note, c) {
+				n, _ := co.extra["x_listed_findings_not_repeated"].(int)
+				co.extra["x_listed_findings_not_repeated"] = n + 1
+				return
+			}
+		}
 		co.violation(kind, note, in, impl)
 	}
 	var c *c03Chain
@@ -736,6 +796,31 @@ func c03RunChain(co *caseOut, in c03Input, r *rng) {
 			bc.VerifPersistGC()
 		}
 		if blk.Persist != 0 {
+			// what a restarted node would read: the latest root through a trie in the node's OWN mode (which ignores
+			// inactive entries under RemoveUntraceableBlocks) over the persistent store
+			liveMode := mpt.ModeAll
+			switch in.Cfg {
+			case "latest":
+				liveMode = mpt.ModeLatest
+			case "gc":
+				liveMode = mpt.ModeGC
+			}
+			var lkv []storage.KeyValue
+			var lerr error
+			if p := catch(func() {
+				lt := mpt.NewTrie(mpt.NewHashNode(recs[h].root), liveMode, storage.NewMemCachedStore(c.bottom))
+				lkv, lerr = lt.Find([]byte{}, nil, 1<<20)
+			}); p != "" {
+				lerr = errors.New("panic: " + p)
+			}
+			var lgot []c03KV
+			for _, kv := range lkv {
+				lgot = append(lgot, c03KV{kv.Key, kv.Value})
+			}
+			if lerr != nil || !c03EqKVs(lgot, c03Sorted(recs[h].dump)) {
+				viol("after a flush the latest state root read from the persistent store in the node's own trie mode does not give the contract storage",
+					map[string]any{"height": h, "err": fmt.Sprint(lerr), "trie_pairs": len(lgot), "storage_pairs": len(recs[h].dump)})
+			}
 			// after a flush the bottom store holds everything: no storage key outside the dump, none missing
 			bd := map[string][]byte{}
 			c.bottom.Seek(storage.SeekRange{Prefix: []byte{byte(storage.STStorage)}}, func(k, v []byte) bool {
@@ -1202,7 +1287,7 @@ func c03RunChain(co *caseOut, in c03Input, r *rng) {
 // ---- generator ----
 
 func c03GenChain(r *rng, cfg string) c03Input {
-	in := c03Input{Cfg: cfg}
+	in := c03Input{Cfg: cfg, NoKnown: true}
 	// contract-relative keys: prefixes of one another, shared prefixes, the empty key
 	stems := [][]byte{{}, {0x61}, {0x61, 0x62}, {0x61, 0x62, 0x63}, {0x61, 0x00}, {0x62}, {0xff}, {0x61, 0x62, 0x63, 0x64, 0x65}}
 	var pool [][]byte
